@@ -343,9 +343,11 @@ def classify(mjm, mjd):
         b0 = int(mjm.site_bodyid[mjm.wrap_objid[i - 1]])
         b1 = int(mjm.site_bodyid[mjm.wrap_objid[i + 1]])
         side = int(round(float(mjm.wrap_prm[i])))
+        inside = side >= 0 and float(np.linalg.norm(mjd.site_xpos[side] - mjd.geom_xpos[g])) < float(mjm.geom_size[g, 0])
         out.append(
           dict(
             tendon=t,
+            inside=bool(inside),
             type="sphere" if wt == int(mujoco.mjtWrap.mjWRAP_SPHERE) else "cylinder",
             sidesite=side >= 0,
             wrapped=bool(wrapped),
